@@ -61,3 +61,12 @@ func VerifStatsRaw(s *Skiplist) (levelNodes [MaxLevel + 1]int64, softDeletes, al
 	}
 	return levelNodes, atomic.LoadInt64(&s.Stats.softDeletes), atomic.LoadInt64(&s.Stats.nodeAllocs), atomic.LoadInt64(&s.Stats.nodeFrees), atomic.LoadInt64(&s.Stats.usedBytes)
 }
+
+// VerifBarrierCurrentLive returns the raw accessor count of the barrier's current (open) session.
+func VerifBarrierCurrentLive(ab *AccessBarrier) int32 {
+	bs := (*BarrierSession)(atomic.LoadPointer(&ab.session))
+	if bs == nil || bs.liveCount == nil {
+		return 0
+	}
+	return atomic.LoadInt32(bs.liveCount)
+}
